@@ -11,6 +11,9 @@ MODE = 'expandg'
 MARKUP_ABBRS = ['ul>li.item$*3', 'a', 'div.b_m>p.-e', 'p{${foo}}', 'ul>li*', '(', 'a{', 'div>p*2>span', 'lorem-', 'x.a.b', '!', 'table>tr>td', '[', 'input:t', 'p{$#}', '.b>.-e_m', 'ul>li[title=$#]*',
                 'btn', 'h$[t=$$]*2', 'em>b', 'div#a.b', 'form:post', 'br', 'img', 'cc:ie', 'p>{a}+{b}']
 CSS_ABBRS = ['p10', 'm10-20', 'foo', 'bar', 'w100p', 'c#f', 'pos:a', 'bd1-s', 'lh1.5', 'foo5', 'z10', '(', 'p$', 'fl', 'd:n', 'op.5', 'lg(to right, #0, #f.5)', 'bar2', 'trf:r']
+NESTED_BAD = {'snippets': {'menu': 'nav>item', 'item': 'li[title="]', 'box': 'div>menu'}}          # resolving `item` raises a parse error in the middle of nested resolution
+NESTED_OK = {'snippets': {'menu': 'nav>item', 'item': 'li[title=""]', 'box': 'div>menu'}}
+CSS_NEST = {'type': 'stylesheet', 'snippets': {'bgz': 'background-zoom:zigzag|zebra', 'posx': 'position-x:stuck|floaty'}}      # user properties that nest under built-in ones
 MARKUP_CFGS = [{}, {'syntax': 'jsx'}, {'options': {'bem.enabled': True}}, {'text': ['foo', 'bar']}, {'text': 'wrapped'}, {'syntax': 'pug'}, {'options': {'output.format': False}},
                {'options': {'comment.enabled': True}}, {'snippets': {'x': 'p+q', 'btn': 'button.btn'}}, {'syntax': 'xsl'}, {'maxRepeat': 2}, {'variables': {'foo': 'bar'}},
                {'options': {'bem.enabled': True, 'bem.element': '--'}, 'text': ['l1', 'l2']}]
@@ -50,6 +53,32 @@ def cases(tier, seed, prop):
             probe = {'s': rnd.choice(['div.page>div.-head>span._big', 'section.card>h2.-title+p.-text', 'ul.list>li.-it*2>a._on']), 'cfg': 0, 'cache': False}
             out.append({'cfgs': cfgs, 'as_object': as_object, 'hist': hist, 'probe': probe, 'g': 'bem'})
             continue
+        r_ = rnd.random()
+        if not css and r_ < .08:
+            # the caller changes the class of its own context element between calls (same dictionary): BEM names follow the current class
+            cfgs = [{'options': {'bem.enabled': True}, 'context': {'name': 'div', 'attributes': {'class': 'card'}}}]; as_object = [False]
+            names = ['card', 'panel', 'menu', 'aside', 'hero', 'nav']
+            for i in range(rnd.randint(2, 8)):
+                hist.append({'s': rnd.choice(['.-title', '.-item>.-link', 'p.-text._big']), 'cfg': 0, 'cache': False, 'ctxclass': rnd.choice(names)})
+            probe = {'s': rnd.choice(['.-title', 'span.-x', '.-item._on']), 'cfg': 0, 'cache': False, 'ctxclass': rnd.choice(names)}
+            out.append({'cfgs': cfgs, 'as_object': as_object, 'hist': hist, 'probe': probe, 'g': 'bem-context'})
+            continue
+        if not css and r_ < .16:
+            # a call that fails in the middle of nested snippet resolution, then the same aliases with a correct table
+            cfgs = [copy.deepcopy(NESTED_BAD), copy.deepcopy(NESTED_OK)]; as_object = [rnd.random() < .3, rnd.random() < .3]
+            for i in range(rnd.randint(1, 5)):
+                hist.append({'s': rnd.choice(['menu', 'box', 'item', 'ul>menu', 'p']), 'cfg': rnd.choice([0, 0, 1]), 'cache': False})
+            probe = {'s': rnd.choice(['menu', 'box', 'ul>menu*2']), 'cfg': 1, 'cache': False}
+            out.append({'cfgs': cfgs, 'as_object': as_object, 'hist': hist, 'probe': probe, 'g': 'failing-nested'})
+            continue
+        if css and r_ < .12:
+            # user properties that nest under built-in ones, then the built-in property's keywords under the default table (no cache)
+            cfgs = [copy.deepcopy(CSS_NEST), {'type': 'stylesheet'}]; as_object = [rnd.random() < .3, rnd.random() < .3]
+            for i in range(rnd.randint(1, 5)):
+                hist.append({'s': rnd.choice(['bgz', 'posx', 'bgz:zeb', 'bg:zig', 'pos:st']), 'cfg': 0, 'cache': False})
+            probe = {'s': rnd.choice(['bg:zig', 'bg:zeb', 'pos:st', 'pos:fl', 'bg:n']), 'cfg': 1, 'cache': False}
+            out.append({'cfgs': cfgs, 'as_object': as_object, 'hist': hist, 'probe': probe, 'g': 'css-nesting'})
+            continue
         for _ in range(rnd.randint(2, 10)):
             ab = rnd.choice(pool_a)
             if rnd.random() < .15: ab = gens.mutate(rnd, ab, gens.ABBR_ALPHA)
@@ -65,7 +94,9 @@ def mk(c):
 
 def req(case):
     p = case['probe']
-    return '%s;%s' % (hx(p['s']), cfgcodec.encode(mk(case['cfgs'][p['cfg']])))
+    c = copy.deepcopy(case['cfgs'][p['cfg']])
+    if 'ctxclass' in p: c['context']['attributes']['class'] = p['ctxclass']
+    return '%s;%s' % (hx(p['s']), cfgcodec.encode(mk(c)))
 
 
 FRESH = '''
@@ -126,6 +157,7 @@ def run(case, prop):
 
     def call(step):
         c = objs[step['cfg']]
+        if 'ctxclass' in step: c['context']['attributes']['class'] = step['ctxclass']        # the caller edits its own context element
         if step['cache']:
             if isinstance(c, Config): c.cache = cache
             else: c['cache'] = cache
@@ -142,10 +174,14 @@ def run(case, prop):
     got = call(case['probe'])
     after = residue()
     p = case['probe']
-    want = fresh_result(p['s'], case['cfgs'][p['cfg']], bool(p['cache']))
+    pc = copy.deepcopy(case['cfgs'][p['cfg']])
+    if 'ctxclass' in p:
+        pc['context']['attributes']['class'] = p['ctxclass']
+        for s0 in snap: s0['context']['attributes']['class'] = p['ctxclass']             # the harness's own edit is not a modification by the library
+    want = fresh_result(p['s'], pc, bool(p['cache']))
     if got != want:
         viol.append('history-dependent| after %d earlier calls expand(%r, %r%s) = %r, in a fresh interpreter it is %r; history: %r' % (
-            len(case['hist']), p['s'], case['cfgs'][p['cfg']], ' + shared cache' if p['cache'] else '', got[1], want[1], [(h['s'], h['cfg'], h['cache']) for h in case['hist']]))
+            len(case['hist']), p['s'], pc, ' + shared cache' if p['cache'] else '', got[1], want[1], [(h['s'], h['cfg'], h['cache']) + ((h['ctxclass'],) if 'ctxclass' in h else ()) for h in case['hist']]))
     # the caller's configuration dictionaries keep their content (apart from the cache entry the harness itself toggles)
     for c, s0 in zip(cfgs, snap):
         c2 = {k: v for k, v in c.items() if k != 'cache'}
@@ -176,4 +212,4 @@ def nontrivial(case, line):
 
 
 def describe(case):
-    return {'configs': case['cfgs'], 'shared_Config_objects': case['as_object'], 'history': [(h['s'], h['cfg'], h['cache']) for h in case['hist']], 'probe': case['probe']}
+    return {'configs': case['cfgs'], 'shared_Config_objects': case['as_object'], 'history': [(h['s'], h['cfg'], h['cache']) + ((h['ctxclass'],) if 'ctxclass' in h else ()) for h in case['hist']], 'probe': case['probe']}
